@@ -204,9 +204,24 @@ func Run(c *Config) (*Result, *vf.Failure) {
 				}
 				units := 1 + rng.Intn(3)
 				ok := true
+				mustAbort := false
 				for u := 0; u < units && ok; u++ {
 					x := rng.Intn(c.Rows)
-					switch rng.Intn(6) {
+					switch rng.Intn(7) {
+					case 6: // a delete that is rolled back afterwards (rows are never really removed): other transactions must not
+						// look through the delete mark
+						ev := Ev{Kind: "d", Path: "point", ID: x, SQL: fmt.Sprintf("DELETE FROM t WHERE id = %d;", x)}
+						ev.Call = now()
+						_, err := t.ExecSQL(ev.SQL, nil)
+						ev.Ret = now()
+						if t.Done {
+							ev.Failed = true
+						} else if err != nil {
+							ev.Err = err.Error()
+						}
+						rec.Evs = append(rec.Evs, ev)
+						ok = !t.Done
+						mustAbort = true
 					case 0:
 						ok = read("group", rng.Intn(3), 0)
 					case 1:
@@ -223,7 +238,7 @@ func Run(c *Config) (*Result, *vf.Failure) {
 				switch {
 				case !ok:
 					rec.Status = "engine-aborted"
-				case rng.Intn(7) == 0:
+				case mustAbort || rng.Intn(7) == 0:
 					t.Abort()
 					rec.Status = "aborted"
 				default:
@@ -310,6 +325,7 @@ func Check(c *Config, res *Result) []*vf.Failure {
 		}
 		own := map[int]int{}
 		seen := map[int]int{}
+		deleted := map[int]bool{} // rows this transaction itself deleted (it is rolled back at its end)
 		for ei := range t.Evs {
 			ev := &t.Evs[ei]
 			if ev.Failed {
@@ -317,6 +333,10 @@ func Check(c *Config, res *Result) []*vf.Failure {
 			}
 			if ev.Err != "" {
 				fail("c04:statement-error", "%s: %s returned error %q", name(ti), ev.SQL, ev.Err)
+				continue
+			}
+			if ev.Kind == "d" {
+				deleted[ev.ID] = true
 				continue
 			}
 			if ev.Kind == "w" {
@@ -343,11 +363,15 @@ func Check(c *Config, res *Result) []*vf.Failure {
 			exp := map[int]bool{}
 			for _, id := range ev.Expect {
 				exp[id] = true
-				if _, ok := got[id]; !ok {
+				if _, ok := got[id]; !ok && !deleted[id] {
 					fail("c04:committed-row-hidden:"+ev.Path, "%s: %s completed without row %d (rows are never deleted): returned %v", name(ti), ev.SQL, id, ev.Rows)
 				}
 			}
 			for id, v := range got {
+				if deleted[id] {
+					fail("c04:own-delete-invisible:"+ev.Path, "%s: %s returned row %d which the transaction itself had deleted before", name(ti), ev.SQL, id)
+					continue
+				}
 				if !exp[id] {
 					fail("c04:unexpected-row:"+ev.Path, "%s: %s returned row %d which does not match the predicate: %v", name(ti), ev.SQL, id, ev.Rows)
 					continue
@@ -529,7 +553,7 @@ type Case struct {
 	History []TxnRec `json:"history,omitempty"`
 }
 
-const Rule = "Case (goroutine tier) = 3-10 client goroutines (GOMAXPROCS 2/4/16) each running 8-40 multi-statement transactions on t(id,k,v[,s]) with 4-12 rows, in-memory or file-backed, SQL-created (every column indexed) or catalog-created (id: skip list / unique skip list), optionally with writes that also change the length of a varchar column so that rows relocate: 1-3 units per transaction, a unit is a read through one access path (index point, sequential scan via a never-true OR branch, index lookup of a group column, index range) or a read-modify-write of one row (read, then UPDATE with a globally unique value); commit or abort. Every completed statement's answer is recorded with call/return stamps of a shared logical clock. Oracle over the recorded history: a completed read returns exactly the rows its predicate selects (rows are never inserted or deleted), own writes are visible, every value read was written to that row by a transaction that had called commit before the read returned and was not replaced by a transaction whose commit returned before the read was called (C04); inside one transaction a row is never read with two different values, no version is replaced by two committed transactions, the final table holds the tip of every version chain, and the dependency graph (WR / WW / RW edges derived from the unique values) of the committed transactions is acyclic (C05). Non-trivial = a run in which at least two transactions were active at once and some read returned a value committed by another transaction."
+const Rule = "Case (goroutine tier) = 3-10 client goroutines (GOMAXPROCS 2/4/16) each running 8-40 multi-statement transactions on t(id,k,v[,s]) with 4-12 rows, in-memory or file-backed, SQL-created (every column indexed) or catalog-created (id: skip list / unique skip list), optionally with writes that also change the length of a varchar column so that rows relocate: 1-3 units per transaction, a unit is a DELETE of one row (such a transaction is rolled back at its end, so rows are never really removed), a read through one access path (index point, sequential scan via a never-true OR branch, index lookup of a group column, index range) or a read-modify-write of one row (read, then UPDATE with a globally unique value); commit or abort. Every completed statement's answer is recorded with call/return stamps of a shared logical clock. Oracle over the recorded history: a completed read returns exactly the rows its predicate selects (rows are never inserted or deleted), own writes are visible, every value read was written to that row by a transaction that had called commit before the read returned and was not replaced by a transaction whose commit returned before the read was called (C04); inside one transaction a row is never read with two different values, no version is replaced by two committed transactions, the final table holds the tip of every version chain, and the dependency graph (WR / WW / RW edges derived from the unique values) of the committed transactions is acyclic (C05). Non-trivial = a run in which at least two transactions were active at once and some read returned a value committed by another transaction."
 
 // Campaign runs n generated workloads and judges failures whose class starts with prefix (the other property's
 // classes are counted only).
